@@ -256,9 +256,31 @@ fn amax(a: &AtomicU64, v: u64) {
     a.fetch_max(v, Ordering::Relaxed);
 }
 
+/// Address and nesting depth of the top-level `Vm` of the case being executed (one case at a time per process).
+/// Lets the monitor know the *actual* compute nesting of any `Vm` it sees, independently of the
+/// `parent_memory` field the implementation uses for that purpose.
+static TOP_VM: std::sync::atomic::AtomicUsize = std::sync::atomic::AtomicUsize::new(0);
+static TOP_DEPTH: std::sync::atomic::AtomicUsize = std::sync::atomic::AtomicUsize::new(0);
+
 impl essential_vm::verif::StepObserver for Monitor {
     fn after_op(&self, vm: &Vm, op: &Op, gas_spent: u64, failed: bool) {
         use essential_vm::asm::ToOpcode;
+        // (0) a Compute that succeeded on a Vm which is itself a compute child ran grandchildren: depth 2.
+        let top = TOP_VM.load(Ordering::Relaxed);
+        if top != 0 && !failed && matches!(op, Op::Compute(asm::Compute::Compute)) {
+            let actual = TOP_DEPTH.load(Ordering::Relaxed) + usize::from(vm as *const Vm as usize != top);
+            if actual >= 1 {
+                let mut g = self.bound_violations.lock().unwrap();
+                if g.len() < 8 {
+                    g.push(format!(
+                        "Compute at pc {} succeeded on a Vm that is itself a compute child: its children ran at nesting depth {} (the Vm reports parent_memory.len() = {})",
+                        vm.pc,
+                        actual + 1,
+                        vm.parent_memory.len()
+                    ));
+                }
+            }
+        }
         // (1) resource bounds, on every VM on every thread.
         let (sl, ml, rd, pd) = (
             vm.stack.len(),
@@ -576,6 +598,8 @@ pub fn run_real(
     };
     let log_seen = ctx.log.len();
     let mut body = || {
+        TOP_VM.store(&vm as *const Vm as usize, Ordering::SeqCst);
+        TOP_DEPTH.store(depth, Ordering::SeqCst);
         if lockstep {
             LOCKSTEP.with(|ls| {
                 *ls.borrow_mut() = Some(LockStep {
@@ -616,6 +640,7 @@ pub fn run_real(
             }
         });
         let lock = LOCKSTEP.with(|ls| ls.borrow_mut().take());
+        TOP_VM.store(0, Ordering::SeqCst);
         (res, lock)
     };
     let (res, lock) = match pool {
